@@ -171,6 +171,9 @@ func (n *leaf) getKeyPrepended(k []byte) *leaf {
 }
 
 func (n *leaf) delete(m *mpt, nibs []byte, depth int) (node, bool, trie.Object, error) {
+	lock := n.rlock()
+	defer lock.Unlock()
+
 	_, match := compareKeys(nibs[depth:], n.keys)
 	if match {
 		return nil, true, n.value, nil
